@@ -319,6 +319,25 @@ def check_7702(fx, rep):
                 if all((o.root[0] == 'call' and o.root[1].endswith('Eip7702Bytecode::address')) or o.path[-1:] == ('.delegated_address',) for o in a):
                     ok = True
         sets = [t for _, t in g.calls() if (t.target_fn or '').endswith('set_delegate_load')]
+
+        def cold_of(op, loader):
+            """operand is `<result of loader>.is_cold`"""
+            oo = og.of_operand(op)
+            return bool(oo) and all(o.root[0] == 'call' and o.root[1] == JS + loader and o.path[-1:] == ('.is_cold',) for o in oo)
+        bad = None
+        for t in sets:
+            if not cold_of(t.args[1], 'load_account'):
+                bad = 'the delegate coldness reported is %s, not the is_cold of the delegation target\'s own load' % [o.render() for o in og.of_operand(t.args[1])]
+        news = [t for _, t in g.calls() if (t.target_fn or '').endswith('Eip7702CodeLoad::new_not_delegated')]
+        for t in news:
+            if not cold_of(t.args[1], 'load_code'):
+                bad = 'the coldness reported for the account is %s, not the is_cold of its own load' % [o.render() for o in og.of_operand(t.args[1])]
+        if not news:
+            bad = 'the account\'s own coldness is not reported'
+        if bad:
+            rep.violation('R4-eip7702-warming', 'delegate:coldness', 'load_account_delegated: ' + bad, g.where())
+        else:
+            rep.ok('R4-eip7702-warming', 'delegate:coldness', 'account and delegate coldness each from their own load')
         if ok and sets:
             rep.ok('R4-eip7702-warming', 'delegate', 'delegation target loaded with load_account and its coldness reported')
         else:
